@@ -152,6 +152,8 @@ func AddTorrent(ctx context.Context, t *Torrent) (*Torrent, error) {
 		close(t.Deleted)
 		return nil, os.ErrExist
 	}
+	t.announce(true)
+	t.announce(false)
 	go func(ctx context.Context, t *Torrent) {
 		defer func(t *Torrent) {
 			del(t.Hash)
@@ -159,8 +161,6 @@ func AddTorrent(ctx context.Context, t *Torrent) (*Torrent, error) {
 		}(t)
 		t.run(ctx)
 	}(ctx, t)
-	t.announce(true)
-	t.announce(false)
 	return t, nil
 }
 
